@@ -27,6 +27,8 @@ MUTANTS = [
     ("enum-errorf-unconditional-hint-write", [("signal_enum.go", "\tif se.refs.size() > 0 {\n\t\tif se.parErrID != \"\" {", "\tif se.parErrID == \"\" {\n\t\tse.parErrID = \"\"\n\t}\n\tif se.refs.size() > 0 {\n\t\tif se.parErrID != \"\" {")]),
     # a failing lookup LEAVES the hint set (I11 broken): the next read-path error clears it = write on a read path
     ("rename-leaves-hint-set", [("node.go", "\t\t\tnodeInt := n.interfaces[n.intErrNum]\n\t\t\tn.intErrNum = -1\n", "\t\t\tnodeInt := n.interfaces[n.intErrNum]\n")]),
+    # the mutator forgets the errorf that clears the hint: the NEXT failing lookup (a read path) clears it
+    ("rename-skips-errorf", [("node.go", "\t\t\tn.intErrNum = tmpInt.number\n\t\t\treturn n.errorf(&UpdateNameError{Err: err})", "\t\t\tn.intErrNum = tmpInt.number\n\t\t\treturn &UpdateNameError{Err: err}")]),
     # ExportNetwork workers append to a shared slice without a mutex
     ("export-workers-share-slice", [("exporter.go", "func exportBusAsync(w io.Writer, bus *Bus, wg *sync.WaitGroup) {\n\tdefer wg.Done()\n",
                                      "var exportedBusNames []string\n\nfunc exportBusAsync(w io.Writer, bus *Bus, wg *sync.WaitGroup) {\n\tdefer wg.Done()\n\texportedBusNames = append(exportedBusNames[:0], bus.name)\n")]),
